@@ -962,6 +962,11 @@ def has_fast_path(spec):
     return any(has_fast_path(s) for s in spec.get("sub", []))
 
 
+def raised_in_add_low_rank(e):
+    import traceback
+    return any(fr.name == "add_low_rank" and "linear_operator" in fr.filename for fr in traceback.extract_tb(e.__traceback__))
+
+
 def check_one(out, spec, case, kern, models, calls=CALLS, ctxs=None, record=True):
     ok = True
     if ctxs is None:
@@ -988,8 +993,17 @@ def check_one(out, spec, case, kern, models, calls=CALLS, ctxs=None, record=True
             try:
                 got = impl_eval(kern, case, call, ctx)
             except Exception as e:
-                out.fail("impl-exception:%s:%s:%s:%s" % (variant(spec), call, ctx, type(e).__name__),
-                         "kernel call raised %r" % (e,), dict(spec=spec, case=case, call=call, ctx=ctx))
+                desc = dict(spec=spec, case=case, call=call, ctx=ctx)
+                if raised_in_add_low_rank(e):
+                    # AdditiveKernel.forward adds a RootLinearOperator summand (LinearKernel(x, x)) with `+`, which the
+                    # installed linear_operator routes through add_low_rank: the partial sum is Cholesky-factorised
+                    # just to cache a root decomposition, and that raises when it is not numerically positive definite
+                    out.fail("sum-with-root-summand:add_low_rank:%s:%s" % (type(e).__name__, call),
+                             "K(x) of a sum whose later summand is a LinearKernel raised %r inside linear_operator's "
+                             "add_low_rank (kernel %s)" % (e, variant(spec)), desc)
+                else:
+                    out.fail("impl-exception:%s:%s:%s:%s" % (variant(spec), call, ctx, type(e).__name__),
+                             "kernel call raised %r" % (e,), desc)
                 ok = False
                 continue
             ok = compare(out, spec, case, call, ctx, got, model, tolmat) and ok
@@ -1073,7 +1087,15 @@ def replay(path):
     kern, term = build(spec)
     models = run_models("C05_replay", [(spec, case, term)])[0]
     model = models[{"full": "full", "sym": "sym", "diag": "sym", "diag2": "d2"}[call]]
-    got = impl_eval(kern, case, call, ctx)
+    try:
+        got = impl_eval(kern, case, call, ctx)
+    except Exception as e:
+        print("kernel", variant(spec), "call", call, "ctx", ctx)
+        print("coq term", term)
+        print("impl raises %r%s" % (e, " (inside linear_operator's add_low_rank)" if raised_in_add_low_rank(e) else ""))
+        print("model", [[float(v) for v in r] for r in model])
+        print("FAILS")
+        return 1
     tolmat = None
     if case.get("geom"):
         xb = {"full": case["x2"], "sym": case["x1"], "diag": case["x1"], "diag2": case["x2b"]}[call]
